@@ -14,6 +14,16 @@ func (e *vfNetErr) Error() string   { return "net error" }
 func (e *vfNetErr) Timeout() bool   { return e.timeout }
 func (e *vfNetErr) Temporary() bool { return false }
 
+// the shape of the transport's own timeout errors (net/http's httpError for the response-header
+// timeout, net's timeoutError for a dial deadline): a net.Error that times out and that
+// declares itself to be context.DeadlineExceeded through an Is method
+type vfDeadlineErr struct{}
+
+func (vfDeadlineErr) Error() string   { return "net/http: timeout awaiting response headers" }
+func (vfDeadlineErr) Timeout() bool   { return true }
+func (vfDeadlineErr) Temporary() bool { return true }
+func (vfDeadlineErr) Is(target error) bool { return target == context.DeadlineExceeded }
+
 type vfWrapErr struct{ inner error }
 
 func (e *vfWrapErr) Error() string { return "wrapped" }
@@ -30,8 +40,8 @@ func (c vfDoneCtx) Err() error { return c.err }
 // C16-O1: the forwarder's error handler maps every failure to exactly one gateway status.
 func VerifC16ErrorMap() {
 	kind := verifInt("kind")
-	verifAssume(verifAnd(kind >= 0, kind <= 7))
-	kind = verifConcretize(kind, 0, 7)
+	verifAssume(verifAnd(kind >= 0, kind <= 8))
+	kind = verifConcretize(kind, 0, 8)
 	var err error
 	want := http.StatusInternalServerError
 	switch kind {
@@ -49,6 +59,8 @@ func VerifC16ErrorMap() {
 		err, want = &vfWrapErr{&vfWrapErr{context.Canceled}}, 499
 	case 6:
 		err, want = errors.New("anything else"), http.StatusInternalServerError
+	case 8: // backend response timeout as the transport reports it
+		err, want = vfDeadlineErr{}, http.StatusGatewayTimeout
 	case 7: // a net.Error with symbolic timeout flag
 		t := verifBool("timeout")
 		err = &vfNetErr{timeout: t}
